@@ -479,3 +479,81 @@ func VerifRemainingSuspicionTime(n, k int32, elapsed, min, max time.Duration) ti
 func VerifSuspicionTimeout(mult, n int, interval time.Duration) time.Duration {
 	return suspicionTimeout(mult, n, interval)
 }
+
+// ---- probe / ack hooks ----
+
+// VerifProbeNodeByName runs probeNode on the named member (a copy of its record, as probe() does).
+func VerifProbeNodeByName(m *Memberlist, name string) bool {
+	m.nodeLock.RLock()
+	n, ok := m.nodeMap[name]
+	var cp nodeState
+	if ok {
+		cp = *n
+	}
+	m.nodeLock.RUnlock()
+	if !ok {
+		return false
+	}
+	m.probeNode(&cp)
+	return true
+}
+
+// VerifDecodePing extracts the sequence number and target name of an encoded ping body (without type byte).
+func VerifDecodePing(body []byte) (uint32, string, bool) {
+	var p ping
+	if err := decode(body, &p); err != nil {
+		return 0, "", false
+	}
+	return p.SeqNo, p.Node, true
+}
+
+// VerifDecodeSeq extracts the sequence number of an ack / nack / indirect ping body.
+func VerifDecodeSeq(msgType uint8, body []byte) (uint32, bool) {
+	switch messageType(msgType) {
+	case ackRespMsg:
+		var a ackResp
+		if decode(body, &a) != nil {
+			return 0, false
+		}
+		return a.SeqNo, true
+	case nackRespMsg:
+		var n nackResp
+		if decode(body, &n) != nil {
+			return 0, false
+		}
+		return n.SeqNo, true
+	case indirectPingMsg:
+		var i indirectPingReq
+		if decode(body, &i) != nil {
+			return 0, false
+		}
+		return i.SeqNo, true
+	case pingMsg:
+		var p ping
+		if decode(body, &p) != nil {
+			return 0, false
+		}
+		return p.SeqNo, true
+	}
+	return 0, false
+}
+
+// VerifEncodeIndirectPing encodes an indirect ping request.
+func VerifEncodeIndirectPing(seq uint32, target []byte, port uint16, node string, nack bool, srcAddr []byte, srcPort uint16, srcNode string) []byte {
+	buf, _ := encode(indirectPingMsg, &indirectPingReq{SeqNo: seq, Target: target, Port: port, Node: node, Nack: nack,
+		SourceAddr: srcAddr, SourcePort: srcPort, SourceNode: srcNode}, false)
+	return buf.Bytes()
+}
+
+// VerifApplyDelta applies a health-score delta and returns the new score.
+func VerifApplyDelta(m *Memberlist, delta int) int {
+	m.awareness.ApplyDelta(delta)
+	return m.awareness.GetHealthScore()
+}
+
+// VerifNumAckHandlers returns the number of pending ack handlers.
+func VerifNumAckHandlers(m *Memberlist) int {
+	m.ackLock.Lock()
+	defer m.ackLock.Unlock()
+	return len(m.ackHandlers)
+}
